@@ -80,6 +80,10 @@ OP(op_cpp_aead128a) { cpp_op(c, out, ol, 0, 1, 16); }
 OP(op_cpp_masked80pq) { cpp_op(c, out, ol, 1, 2, 20); }
 OP(op_cpp_siv128) { cpp_op(c, out, ol, 2, 0, 16); }
 OP(op_cpp_isap128a) { cpp_op(c, out, ol, 3, 0, 16); }
+/* authentication failures on shared constant keys: the reject path must leave the shared object alone as well */
+OP(op_masked80pq_shared_reject) { out[0] = (uint8_t)ascon80pq_masked_aead_decrypt(out + 1, ol, IN.msg, 40, IN.ad, 3, IN.nonce, &c->sh->mk160); *ol = 25; }
+OP(op_masked128_shared_reject) { out[0] = (uint8_t)ascon128_masked_aead_decrypt(out + 1, ol, IN.msg, 33, 0, 0, IN.nonce, &c->sh->mk128); *ol = 18; }
+OP(op_isap128a_shared_reject) { out[0] = (uint8_t)ascon128a_isap_aead_decrypt(out + 1, ol, IN.msg, 29, IN.ad, 5, IN.nonce, &c->sh->isap128a); *ol = 14; }
 
 typedef struct { const char *name; opfn fn; } opdesc;
 static const opdesc OPS[] = {
@@ -89,6 +93,7 @@ static const opdesc OPS[] = {
     {"masked-own-key", op_masked_own_key}, {"hash", op_hash}, {"hasha", op_hasha}, {"xof", op_xof}, {"xofa-custom", op_xofa_custom}, {"xof-fixed-length", op_xof_fixed}, {"xofa-fixed-length", op_xofa_fixed},
     {"prf", op_prf}, {"mac+verify+prfshort", op_mac}, {"hmac+hmaca", op_hmac}, {"kmac+kmaca", op_kmac}, {"kdf+kdfa", op_kdf}, {"hkdf+hkdfa", op_hkdf}, {"pbkdf2", op_pbkdf2}, {"hex", op_hex}, {"random", op_random},
     {"permutation-api", op_permutation}, {"nonce-helpers", op_nonce_helpers}, {"cpp-aead128a", op_cpp_aead128a}, {"cpp-masked80pq", op_cpp_masked80pq}, {"cpp-siv128", op_cpp_siv128}, {"cpp-isap128a", op_cpp_isap128a},
+    {"masked80pq-shared-key-rejecting-decrypt", op_masked80pq_shared_reject}, {"masked128-shared-key-rejecting-decrypt", op_masked128_shared_reject}, {"isap128a-shared-key-rejecting-decrypt", op_isap128a_shared_reject},
 };
 #define NOPS ((int)(sizeof OPS / sizeof OPS[0]))
 
